@@ -281,7 +281,10 @@ pub fn explore_source(name: &str, original: &str, pairs: bool, acc: &mut Acc) {
     // comments whose text begins with each printable ASCII character (`///`, `//!`, `//#[a]`, `//*`, ...): what a
     // comment says must not matter, whatever it looks like to other tools
     for i in 0..=n {
-        for g in comment_initial_gaps().iter() {
+        for (k, g) in comment_initial_gaps().iter().enumerate() {
+            if n > 80 && (i + k) % 7 != 0 {
+                continue; // large sources: a rotating seventh of the gaps at each position
+            }
             try_layout(layout(&texts, &|j| if j == i { *g } else if j == 0 || j == n { "" } else { " " }, ""), "1-gap deviations with a comment beginning with each printable ASCII character", acc);
         }
     }
